@@ -43,7 +43,15 @@ impl<'a> RegExp<'a> {
         #[cfg(grex_verif)]
         crate::verif::record("expr", || crate::verif::ser_expr(&ast, config));
 
-        if config.is_start_anchor_disabled && config.is_end_anchor_disabled {
+        // Surrogate pair escapes are not accepted by the regex crate,
+        // so the check below is only possible if the candidate compiles.
+        let is_self_check_possible = !config.is_astral_code_point_converted_to_surrogate
+            || Self::try_convert_expr_to_regex(&ast, config).is_some();
+
+        if config.is_start_anchor_disabled
+            && config.is_end_anchor_disabled
+            && is_self_check_possible
+        {
             let mut regex = Self::convert_expr_to_regex(&ast, config);
 
             if config.is_verbose_mode_enabled {
@@ -95,6 +103,14 @@ impl<'a> RegExp<'a> {
                 }
             })
             .collect_vec();
+    }
+
+    fn try_convert_expr_to_regex(expr: &Expression, config: &RegExpConfig) -> Option<Regex> {
+        if config.is_output_colorized {
+            Regex::new(&color_code_regex().replace_all(&expr.to_string(), "")).ok()
+        } else {
+            Regex::new(&expr.to_string()).ok()
+        }
     }
 
     fn convert_expr_to_regex(expr: &Expression, config: &RegExpConfig) -> Regex {
